@@ -41,7 +41,7 @@ CLAIMS = {
     note="bounded: partial bodies <= 1 statement (quick) / 2 (thorough) over 12 statements, nesting depth 2 (p -> p2), 17 invocation forms.",
     tech=TECH_A, ref="DESIGN.md 7 C08"),
  "C19": dict(
-    text="The partial store is part of the LiquidInterp state with one lookup rule per policy (eager: compiled map incl. failures; lazy: cache filled on first use incl. failures; on-demand: nothing kept); TLC checks on every scenario that each policy returns what the sources declare, that all three produce the same result, that a store warmed by earlier renders changes nothing and that errors arise only at executed tags; every scenario is then rendered 3 times on each of three real parsers and compared with the specification's result.",
+    text="The partial store is part of the LiquidInterp state with one lookup rule per policy (eager: compiled map incl. failures; lazy: cache filled on first use incl. failures; on-demand: nothing kept); TLC checks on every scenario that each policy returns what the sources declare, that all three produce the same result, that a store warmed by earlier renders changes nothing and that errors arise only at executed tags; every scenario is then rendered 3 times on each of three real parsers and compared with the specification's result. Partials given as source text (blank edges, trim markers, broken sources) are parsed by LiquidParse and included / rendered under the three policies, twice (stage `partials-from-text`).",
     note="bounded as C08; in-memory source only.",
     tech=TECH_A, ref="DESIGN.md 7 C19"),
  "C09": dict(
@@ -77,7 +77,7 @@ CLAIMS = {
     note="bounded: strings <= 4/5 (escape), <= 4 (url), <= 4/6 (strip_html) over the alphabets the property names, plus token-level sequences that reach the script/style/comment passes and near-entities.",
     tech=TECH_A, ref="DESIGN.md 7 C16"),
  "C17": dict(
-    text="LiquidDates is an independent calendar (days-from-civil and back, weekday, day of year, %U/%W weeks, ISO week date) whose laws TLC checks on their own (round trip over +-2000 years, anchors, 4 January in week 1), the default printed form with its parser (round trip is an invariant) and an interpreter for strftime formats giving the documented meaning of every directive with flags, widths and fractional seconds (leading digits of the nanosecond field), unknown directives echoed, trailing % an error; TLC enumerates stamps x formats and the harness checks on the real code that the printed form parses back to the same date-time, that four other accepted spellings denote the same date-time, and that {{ ts | date: fmt }} equals the specification.",
+    text="LiquidDates is an independent calendar (days-from-civil and back, weekday, day of year, %U/%W weeks, ISO week date) whose laws TLC checks on their own (round trip over +-2000 years, anchors, 4 January in week 1), the default printed form with its parser (round trip is an invariant) and an interpreter for strftime formats giving the documented meaning of every directive with flags, widths and fractional seconds (leading digits of the nanosecond field), unknown directives echoed, trailing % an error; TLC enumerates stamps x formats and the harness checks on the real code that the printed form parses back to the same date-time, that four other accepted spellings denote the same date-time, and that {{ ts | date: fmt }} equals the specification. The ordering clause (chronological regardless of offset) is decided by LiquidCompare on the date / date-time part of the C11 pool plus pairs whose local dates order against their instants (stage `ordering`).",
     note="bounded: the stamp and format sets listed in the evidence rule; composite directives with flags/widths and a few case-flag combinations are unspecified; two repaired defects (non-ASCII unknown directive panic, fraction digits padded on the wrong side).",
     tech=TECH_A, ref="DESIGN.md 7 C17"),
  "C18": dict(
